@@ -13,12 +13,14 @@ let () =
     | "rlower" -> Mroutes_cmd.run_rlower
     | "rsolve" -> Mroutes_cmd.run_rsolve
     | "lp" -> Lp_cmd.run_case
+    | "api" -> Api_cmd.run_case
     | "fi" -> Fi_cmd.run_case_fi
     | "ctxf" -> Fi_cmd.run_case_ctxf
     | "limits" -> Limits_cmd.run_case_full
     | "lpjudge" -> Lp_cmd.judge
     | "gac" -> Gac_cmd.run_case
     | "gacspec" -> Gac_cmd.run_spec
+    | "sudoku" -> Sudoku_cmd.run_case
     | _ -> prerr_endline ("unknown sub-command " ^ sub); exit 2 in
   (try
      while true do
